@@ -333,7 +333,7 @@ def evaluate(sp, results):
     """Compares every executed case with the model.  Returns (disagreements {key: info}, counters, distinct set)."""
     dis = {}           # key -> {"what", "n", "example", "dir", "attributed"}
     caseinfo = {}      # sets -> (direction or None)
-    counts = {"accept": 0, "reject": 0, "other": 0, "agree": 0, "disagree": 0, "attributed": 0}
+    counts = {"accept": 0, "reject": 0, "other": 0, "agree": 0, "disagree": 0, "attributed": 0, "other_attributed": 0}
     distinct = set()
 
     def record(key, what, sets, direction, n=1):
@@ -352,7 +352,7 @@ def evaluate(sp, results):
             caseinfo[sets] = kind
             if len(sets) > 1 and any(caseinfo.get(s) == kind for n in range(1, len(sets))
                                      for s in itertools.combinations(sets, n)):
-                counts["attributed"] += 1
+                counts["other_attributed"] += 1
                 continue
             key = "%s:%s:%s" % (PID, kind, ",".join("%s=%s" % c for c in cls) or "defaults")
             record(key, "svt_av1_enc_set_parameter %s (%s) for %s" % (kind, act, fmt(sets)), sets, kind)
@@ -476,10 +476,13 @@ def run(tier):
     for key in sorted(set(ck.known) - set(dis)):
         vlib.log("  note: known finding not observed in this run (tier %s): %s" % (tier, key))
     samples = []
-    for sets in cases[:1] + cases[1:400:57] + cases[-3:]:
+    picked = cases[:1] + cases[1::max(1, len(cases) // 12)][:12] + [tuple(sorted(dis[k]["example"].items()))
+                                                                     for k in sorted(dis)[:3]]
+    for sets in picked:
         if sets in results:
             samples.append({"sets": fmt(sets), "model": sp.judge(sets)["model"], "return": ":".join(results[sets])})
-    amb = sorted(r["field"] for r in model.ROWS if r["kind"] in ("ambiguous", "only"))
+    amb = sorted(r["field"] for r in model.ROWS if r["kind"] == "ambiguous")
+    part = sorted(r["field"] for r in model.ROWS if r["kind"] == "only")
     cov = {
         "evaluations": len(results),
         "distinct_nontrivial": len(distinct),
@@ -500,6 +503,8 @@ def run(tier):
         "model_rows": len(model.ROWS), "model_constraints": len(model.CONSTRAINTS),
         "coupling_groups": [g["name"] for g in model.GROUPS],
         "ambiguous_fields": amb,
+        "fields_with_statements_about_few_values_only": part,
+        "crash_or_hang_cases_attributed_to_smaller_case": counts["other_attributed"],
         "undocumented_fields_not_deviated": sorted(model.UNDOCUMENTED),
     }
     return ck.finish(cov, [
@@ -549,7 +554,7 @@ def replay(path):
     if path.startswith("mutant:"):
         names = path.split(":", 1)[1].split(",")
         if names == ["all"]:
-            names = [m for m in ch.MUTANTS if m != "c13fix"]
+            names = [m for m in ch.MUTANTS if m not in ("c13fix", "noqpinit")]
         return mutant_demo(names)
     d = json.load(open(path))
     return _single(ch.build(), d["replay"]["sets"])
